@@ -5,6 +5,7 @@
 package trzsz
 
 import (
+	"strings"
 	"bytes"
 	"fmt"
 	"os"
@@ -29,6 +30,9 @@ type vfC08File struct {
 type vfC08Case struct {
 	Cfg   vfPairCfg   `json:"cfg"`
 	Files []vfC08File `json:"files"`
+	// SlowAckMs > 0: a receiver on a slow disk - each of its name / hash acknowledgements goes out that much late (less than the
+	// timeout each, more than the timeout together). A cooperative peer on a fault-free link: the transfer must still succeed.
+	SlowAckMs int `json:"slow_ack_ms,omitempty"`
 }
 
 const vfMi = 1 << 20
@@ -141,7 +145,29 @@ func vfC08Run(cs vfC08Case, nontrivial *bool) string {
 	vfCurCase("TestVF_C08", cs)
 	r := vfNewPair(cs.Cfg)
 	r.propagate = true
+	slowed := 0
+	if cs.SlowAckMs > 0 {
+		back := r.s2c // the receiver's link to the sender
+		if !cs.Cfg.Upload {
+			back = r.c2s
+		}
+		back.onMsg = func(m vfMsg, before bool) {
+			if !before {
+				return
+			}
+			if all := back.messages(); m.Idx < len(all) {
+				m = all[m.Idx] // type and text are known once the whole line has been written (acknowledgements go out in one write)
+			}
+			if strings.HasPrefix(m.Txt, "#SUCC:eJ") {
+				slowed++
+				time.Sleep(time.Duration(cs.SlowAckMs) * time.Millisecond)
+			}
+		}
+	}
 	r.run(paths, dest, 240*time.Second)
+	if cs.SlowAckMs > 0 && slowed >= 3 {
+		*nontrivial = true
+	}
 	if r.hung {
 		return "fault-free overwrite transfer did not finish: " + r.describe()
 	}
@@ -260,6 +286,12 @@ func vfGenC08(rt *rapid.T) vfC08Case {
 		cs.Cfg.SegS2C = vfSeg{}
 		cs.Cfg.Compress = rapid.SampledFrom([]int{0, 1}).Draw(rt, "lcompress")
 		cs.Cfg.WinServer = false
+		if cs.Cfg.Protocol >= 3 && rapid.Bool().Draw(rt, "slowacks") {
+			f := &cs.Files[0]
+			f.SrcSize, f.PrevSize, f.Relation = 25*vfMi, rapid.SampledFrom([]int64{22 * vfMi, 25 * vfMi, 30 * vfMi}).Draw(rt, "slowprev"), rapid.SampledFrom([]string{"prefix", "identical", "longer", "diverge"}).Draw(rt, "slowrel")
+			f.Diverge = rapid.SampledFrom([]int64{20*vfMi + 1, 21 * vfMi}).Draw(rt, "slowdiv")
+			cs.SlowAckMs, cs.Cfg.Timeout = 1800, 3
+		}
 	}
 	return cs
 }
@@ -283,6 +315,9 @@ func TestVF_C08(t *testing.T) {
 			labels = append(labels, "relation_"+f.Relation)
 			if f.SrcSize >= 10*vfMi || f.PrevSize >= 10*vfMi {
 				labels = append(labels, "spans_hash_block")
+				if cs.SlowAckMs > 0 {
+					labels = append(labels, "receiver_acknowledges_slowly")
+				}
 			}
 			if f.SrcSize == 0 {
 				labels = append(labels, "empty_source")
